@@ -36,7 +36,7 @@ def describe(rep):
         'equals the multigrid-in-time iteration written with explicit matrices inside the query (unknowns defined by equations, solved by the solver); '
         'on three levels with per-level sweep counts (middle level: nsweeps[l] sweeps on the way down and on the way up).'
     )
-    rep.rule = 'case = (fine nodes, coarse nodes, coarse sweeper, prolongation mode, levels, clause)'
+    rep.rule = 'case = (fine nodes, coarse nodes, node families of the levels, coarse sweeper, prolongation mode, levels, clause)'
     rep.assume('right-hand side F(u, t) uninterpreted and NON-AUTONOMOUS; implicit solve stub: returns a fresh w with w - a F(w, t) = rhs, and returns the initial guess if that already solves the equation (solver contract, C12)',
                'space transfer: identity (injection) or an exact matrix pair; restriction rows of the node transfer sum to one',
                'reals for floats; (c) tolerance 1e-9 for the rounding of the float transfer tables')
